@@ -85,6 +85,21 @@ def _scope_info(f, free_params=frozenset()):
     return own, locals_, others
 
 
+_MIRROR_SHAPE = {ast.Lt: ast.Gt, ast.Gt: ast.Lt, ast.LtE: ast.GtE, ast.GtE: ast.LtE, ast.Eq: ast.Eq, ast.NotEq: ast.NotEq}
+_NEG_SHAPE = {ast.In: ast.NotIn, ast.Is: ast.IsNot, ast.Eq: ast.NotEq, ast.NotEq: ast.Eq}
+
+
+def _unnegated(t):
+    """the test without a leading negation (`not x` -> x, != -> ==, is not -> is, not in -> in): if/else branches may be swapped"""
+    if isinstance(t, ast.UnaryOp) and isinstance(t.op, ast.Not):
+        return _unnegated(t.operand)
+    if isinstance(t, ast.Compare) and len(t.ops) == 1:
+        pos = {ast.NotEq: ast.Eq, ast.IsNot: ast.Is, ast.NotIn: ast.In}.get(type(t.ops[0]))
+        if pos is not None:
+            return ast.Compare(left=t.left, ops=[pos()], comparators=t.comparators)
+    return t
+
+
 def _shape(node, locals_, attrs=frozenset(), attr_hits=None):
     """string describing node with local names (and the attribute names in `attrs`) blanked; also returns the local Name
     nodes in traversal order (and appends the blanked Attribute nodes to attr_hits)"""
@@ -106,6 +121,33 @@ def _shape(node, locals_, attrs=frozenset(), attr_hits=None):
             if attr_hits is not None:
                 attr_hits.append(n)
             return "(Attribute " + rec(n.value) + " @)"
+        if isinstance(n, ast.UnaryOp) and isinstance(n.op, ast.Not) and isinstance(n.operand, ast.Compare) and len(n.operand.ops) == 1 \
+                and type(n.operand.ops[0]) in (ast.In, ast.Is, ast.Eq, ast.NotEq):
+            # not (a in b) is shaped like a not in b
+            c = n.operand
+            return rec(ast.Compare(left=c.left, ops=[_NEG_SHAPE[type(c.ops[0])]()], comparators=c.comparators))
+        if isinstance(n, ast.Compare) and len(n.ops) == 1 and type(n.ops[0]) in _MIRROR_SHAPE:
+            # orientation-free shape of a comparison: (a > b) is shaped like (b < a); for == / != the two sides are ordered by
+            # their own shapes, and when these are equal the names on both sides do not vote (their order is arbitrary)
+            op = type(n.ops[0])
+            l, r = n.left, n.comparators[0]
+            k0 = len(names)
+            sl = rec(l)
+            k1 = len(names)
+            sr = rec(r)
+            nl, nr = names[k0:k1], names[k1:]
+            del names[k0:]
+            if op in (ast.Gt, ast.GtE):
+                op = _MIRROR_SHAPE[op]
+                sl, sr, nl, nr = sr, sl, nr, nl
+            if op in (ast.Eq, ast.NotEq):
+                if sl == sr:
+                    nl, nr = [], []         # ambiguous
+                elif sr < sl:
+                    sl, sr, nl, nr = sr, sl, nr, nl
+            names.extend(nl)
+            names.extend(nr)
+            return f"(Compare {sl} {op.__name__} {sr})"
         if isinstance(n, ast.AST):
             parts = [type(n).__name__]
             for fld, v in ast.iter_fields(n):
@@ -154,7 +196,9 @@ def _headers(f):
 
 def _header_shape(st, locals_):
     if isinstance(st, (ast.If, ast.While)):
-        return _shape(st.test, locals_)[0].join(("H:" + type(st).__name__ + "(", ")")), _shape(st.test, locals_)[1]
+        t_ = _unnegated(st.test) if isinstance(st, ast.If) else st.test
+        sh_, nm_ = _shape(t_, locals_)
+        return "H:" + type(st).__name__ + "(" + sh_ + ")", nm_
     if isinstance(st, (ast.For, ast.AsyncFor)):
         a, na = _shape(st.target, locals_)
         b, nb = _shape(st.iter, locals_)
@@ -341,6 +385,94 @@ def _relinearise(if_node):
                 todo.extend(c for c in ast.iter_child_nodes(x) if not isinstance(c, ast.stmt))
 
 
+def _comp_targets(comp):
+    return {x.id for g in comp.generators for x in ast.walk(g.target) if isinstance(x, ast.Name)}
+
+
+def _stmt_own_names(st, skip):
+    """Name nodes of one statement's own expressions (not of the statements nested in it); nothing for statements inside `skip`"""
+    cur = st
+    out = []
+    for fld, v in ast.iter_fields(st):
+        if fld in ("body", "orelse", "finalbody", "handlers"):
+            continue
+        for x in (v if isinstance(v, list) else [v]):
+            if isinstance(x, ast.AST):
+                out.extend(n for n in ast.walk(x) if isinstance(n, ast.Name))
+    return out
+
+
+def _pair_headers(f_new, f_ref):
+    """{id(statement of f_new): statement of f_ref} for the statements whose (negation-free, orientation-free, local names
+    blanked) header shapes align in order"""
+    _o1, loc_new, _x1 = _scope_info(f_new, frozenset(a.arg for a in f_new.args.posonlyargs + f_new.args.args))
+    _o2, loc_ref, _x2 = _scope_info(f_ref, frozenset(a.arg for a in f_ref.args.posonlyargs + f_ref.args.args))
+    h_new, h_ref = _headers(f_new), _headers(f_ref)
+    sh_new = [_header_shape(st, loc_new)[0] for st in h_new]
+    sh_ref = [_header_shape(st, loc_ref)[0] for st in h_ref]
+    sm = difflib.SequenceMatcher(a=sh_new, b=sh_ref, autojunk=False)
+    out = {}
+    for blk in sm.get_matching_blocks():
+        for k in range(blk.size):
+            out[id(h_new[blk.a + k])] = h_ref[blk.b + k]
+    return out, loc_new, loc_ref
+
+
+def _leaves(stmts):
+    if not stmts:
+        return False
+    last = stmts[-1]
+    if isinstance(last, (ast.Return, ast.Raise, ast.Continue, ast.Break)):
+        return True
+    if isinstance(last, ast.If) and last.orelse:
+        return _leaves(last.body) and _leaves(last.orelse)
+    return False
+
+
+def respell_aligned(f_new, f_ref):
+    """if/else polarity decided per statement: an `if` of f_new that aligns with an `if` of the reference function whose test is
+    the negation of its own gets the reference polarity -
+        if T: A else: B           ->  if not-T: B else: A
+        if T: A(leaves)  B(leaves, rest of the block)   ->  if not-T: B   A
+    -> number of rewrites"""
+    pairs, loc_new, loc_ref = _pair_headers(f_new, f_ref)
+    n_ = [0]
+
+    def block(owner, field):
+        lst = getattr(owner, field)
+        for i, st in enumerate(list(lst)):
+            if isinstance(st, ast.If) and id(st) in pairs and isinstance(pairs[id(st)], ast.If):
+                r = pairs[id(st)]
+                neg = _negated(st.test)
+                if neg is not None and _shape(st.test, loc_new)[0] != _shape(r.test, loc_ref)[0] and _shape(neg, loc_new)[0] == _shape(r.test, loc_ref)[0]:
+                    if st.orelse:
+                        st.test, st.body, st.orelse = neg, st.orelse, st.body
+                        _relinearise(st)
+                        n_[0] += 1
+                    elif _leaves(st.body) and lst[i] is st and i + 1 < len(lst) and _leaves(lst[i + 1:]) and not r.orelse \
+                            and not any(isinstance(x, FUNC + (ast.ClassDef,)) for x in lst[i + 1:]):
+                        rest = lst[i + 1:]
+                        tmp = ast.If(test=neg, body=rest, orelse=st.body)
+                        _relinearise(tmp)
+                        st.test, st.body = neg, rest
+                        lst[i + 1:] = tmp.orelse
+                        n_[0] += 1
+        for st in lst:
+            if isinstance(st, FUNC + (ast.ClassDef,)):
+                continue
+            for fld in ("body", "orelse", "finalbody"):
+                v = getattr(st, fld, None)
+                if isinstance(v, list) and v and isinstance(v[0], ast.stmt):
+                    block(st, fld)
+            if isinstance(st, ast.Try):
+                for h in st.handlers:
+                    block(h, "body")
+    block(f_new, "body")
+    if n_[0]:
+        ast.fix_missing_locations(f_new)
+    return n_[0]
+
+
 def respell(f_new, f_ref):
     """Bring equivalent spellings of conditions in f_new to the form the reference function uses (assumption, recorded in the
     evidence: comparison operators are consistent under reflection for the operands concerned - plain names, attribute paths,
@@ -354,6 +486,18 @@ def respell(f_new, f_ref):
     n_ = [0]
     ref_cmp = {_norm(c) for c in ast.walk(f_ref) if isinstance(c, ast.Compare)}
     ref_tests = {_norm(s.test) for s in ast.walk(f_ref) if isinstance(s, (ast.If, ast.While, ast.IfExp))}
+
+    def _in_ref(t):
+        """the test, or its mirror image, whichever is a test of the reference function (None: neither)"""
+        if t is None:
+            return None
+        if _norm(t) in ref_tests:
+            return t
+        if isinstance(t, ast.Compare) and len(t.ops) == 1 and type(t.ops[0]) in _MIRROR and _simple_operand(t.left) and _simple_operand(t.comparators[0]):
+            m = ast.copy_location(ast.Compare(left=t.comparators[0], ops=[_MIRROR[type(t.ops[0])]()], comparators=[t.left]), t)
+            if _norm(m) in ref_tests:
+                return m
+        return None
 
     class T(ast.NodeTransformer):
         def visit_UnaryOp(self, n):
@@ -376,9 +520,28 @@ def respell(f_new, f_ref):
 
         def visit_If(self, n):
             self.generic_visit(n)
+            # `if a: if b: BODY` <-> `if a and b: BODY` (no else anywhere): the form the reference uses
+            if not n.orelse and _norm(n.test) not in ref_tests:
+                if len(n.body) == 1 and isinstance(n.body[0], ast.If) and not n.body[0].orelse:
+                    a_, b_ = n.test, n.body[0].test
+                    vals = (a_.values if isinstance(a_, ast.BoolOp) and isinstance(a_.op, ast.And) else [a_]) + \
+                           (b_.values if isinstance(b_, ast.BoolOp) and isinstance(b_.op, ast.And) else [b_])
+                    comb = ast.copy_location(ast.BoolOp(op=ast.And(), values=vals), n.test)
+                    if _norm(comb) in ref_tests:
+                        n_[0] += 1
+                        return ast.copy_location(ast.If(test=comb, body=n.body[0].body, orelse=[]), n)
+                elif isinstance(n.test, ast.BoolOp) and isinstance(n.test.op, ast.And):
+                    vs = n.test.values
+                    for k in range(1, len(vs)):
+                        head = vs[0] if k == 1 else ast.copy_location(ast.BoolOp(op=ast.And(), values=vs[:k]), n.test)
+                        tail = vs[k] if k == len(vs) - 1 else ast.copy_location(ast.BoolOp(op=ast.And(), values=vs[k:]), n.test)
+                        if _norm(head) in ref_tests and _norm(tail) in ref_tests:
+                            n_[0] += 1
+                            inner = ast.copy_location(ast.If(test=tail, body=n.body, orelse=[]), n)
+                            return ast.copy_location(ast.If(test=head, body=[inner], orelse=[]), n)
             if n.orelse and not (len(n.orelse) == 1 and isinstance(n.orelse[0], ast.If)) and _norm(n.test) not in ref_tests:
-                neg = _negated(n.test)
-                if neg is not None and _norm(neg) in ref_tests:
+                neg = _in_ref(_negated(n.test))
+                if neg is not None:
                     n_[0] += 1
                     new_if = ast.copy_location(ast.If(test=neg, body=n.orelse, orelse=n.body), n)
                     _relinearise(new_if)
@@ -388,8 +551,8 @@ def respell(f_new, f_ref):
         def visit_IfExp(self, n):
             self.generic_visit(n)
             if _norm(n.test) not in ref_tests:
-                neg = _negated(n.test)
-                if neg is not None and _norm(neg) in ref_tests:
+                neg = _in_ref(_negated(n.test))
+                if neg is not None:
                     n_[0] += 1
                     return ast.copy_location(ast.IfExp(test=neg, body=n.orelse, orelse=n.body), n)
             return n
@@ -422,6 +585,8 @@ def respell(f_new, f_ref):
             return leaves(last.body) and leaves(last.orelse)
         return False
 
+    pairs = _pair_headers(f_new, f_ref)[0]
+
     def fix_block(owner, field):
         lst = getattr(owner, field)
         i = 0
@@ -429,6 +594,8 @@ def respell(f_new, f_ref):
             st = lst[i]
             if isinstance(st, ast.If) and not isinstance(st, FUNC):
                 rs = ref_ifs.get(_norm(st.test), [])
+                if len(rs) != 1 and isinstance(pairs.get(id(st)), ast.If) and _norm(pairs[id(st)].test) == _norm(st.test):
+                    rs = [pairs[id(st)]]
                 if len(rs) == 1 and leaves(st.body):
                     r = rs[0]
                     if st.orelse and not r.orelse and not (len(st.orelse) == 1 and isinstance(st.orelse[0], ast.If) and False):
@@ -453,6 +620,96 @@ def respell(f_new, f_ref):
                 for h in st.handlers:
                     fix_block(h, "body")
     fix_block(f_new, "body")
+    # accumulation loop <-> comprehension, whichever the reference function has:
+    #     xs = []                                   xs = [E for T in IT if C]
+    #     for T in IT:            <->
+    #         if C: xs.append(E)                    (also set() / .add and {} / d[K] = V)
+    ref_stmts = {_norm(st_) for st_ in ast.walk(f_ref) if isinstance(st_, ast.Assign)}
+    ref_loops = {_norm(st_.target) + " in " + _norm(st_.iter) for st_ in ast.walk(f_ref) if isinstance(st_, ast.For)}
+
+    ref_comp_shapes = {}
+    for st_ in ast.walk(f_ref):
+        if isinstance(st_, ast.Assign) and isinstance(st_.value, (ast.ListComp, ast.SetComp, ast.DictComp)) and len(st_.targets) == 1 and isinstance(st_.targets[0], ast.Name):
+            sh_, nm_ = _shape(st_, _comp_targets(st_.value))
+            ref_comp_shapes.setdefault(sh_, []).append((st_, nm_))
+
+    def as_comp(init, loop):
+        """the comprehension equivalent to `init` followed by `loop`, or None"""
+        if not (isinstance(init, ast.Assign) and len(init.targets) == 1 and isinstance(init.targets[0], ast.Name) and isinstance(loop, ast.For) and not loop.orelse):
+            return None
+        name = init.targets[0].id
+        v = init.value
+        kind = "list" if (isinstance(v, ast.List) and not v.elts) or (isinstance(v, ast.Call) and isinstance(v.func, ast.Name) and v.func.id == "list" and not v.args) else \
+            "set" if (isinstance(v, ast.Call) and isinstance(v.func, ast.Name) and v.func.id == "set" and not v.args) else \
+            "dict" if (isinstance(v, ast.Dict) and not v.keys) or (isinstance(v, ast.Call) and isinstance(v.func, ast.Name) and v.func.id == "dict" and not v.args and not v.keywords) else None
+        if kind is None:
+            return None
+        body, conds = loop.body, []
+        while len(body) == 1 and isinstance(body[0], ast.If) and not body[0].orelse:
+            conds.append(body[0].test)
+            body = body[0].body
+        if len(body) != 1:
+            return None
+        st = body[0]
+        used = {x.id for x in ast.walk(loop.iter) if isinstance(x, ast.Name)} | {x.id for c in conds for x in ast.walk(c) if isinstance(x, ast.Name)}
+        if name in used:
+            return None
+        gen = ast.comprehension(target=loop.target, iter=loop.iter, ifs=conds, is_async=0)
+        if kind in ("list", "set") and isinstance(st, ast.Expr) and isinstance(st.value, ast.Call) and isinstance(st.value.func, ast.Attribute) \
+                and isinstance(st.value.func.value, ast.Name) and st.value.func.value.id == name and len(st.value.args) == 1 and not st.value.keywords \
+                and st.value.func.attr == ("append" if kind == "list" else "add") and name not in {x.id for x in ast.walk(st.value.args[0]) if isinstance(x, ast.Name)}:
+            comp = ast.ListComp(elt=st.value.args[0], generators=[gen]) if kind == "list" else ast.SetComp(elt=st.value.args[0], generators=[gen])
+        elif kind == "dict" and isinstance(st, ast.Assign) and len(st.targets) == 1 and isinstance(st.targets[0], ast.Subscript) and isinstance(st.targets[0].value, ast.Name) \
+                and st.targets[0].value.id == name and name not in {x.id for x in ast.walk(st.value) if isinstance(x, ast.Name)}:
+            comp = ast.DictComp(key=st.targets[0].slice, value=st.value, generators=[gen])
+        else:
+            return None
+        return ast.copy_location(ast.Assign(targets=[ast.Name(id=name, ctx=ast.Store())], value=comp), init)
+
+    def comp_block(owner, field):
+        lst = getattr(owner, field)
+        i = 0
+        while i + 1 < len(lst):
+            c = as_comp(lst[i], lst[i + 1])
+            if c is not None:
+                ast.fix_missing_locations(c)
+                if _norm(c) in ref_stmts:
+                    lst[i:i + 2] = [c]
+                    n_[0] += 1
+                    continue
+                # the same comprehension up to the names of its own variables and the spelling of its comparisons: the loop
+                # variables must then be private to the loop (a comprehension does not leak them)
+                tg = _comp_targets(c.value)
+                inside = {id(x) for x in ast.walk(lst[i + 1])}
+                outside = {x.id for st_ in ast.walk(f_new) if isinstance(st_, (ast.stmt, ast.ExceptHandler)) and id(st_) not in inside
+                           for x in _stmt_own_names(st_, None)}
+                if not (tg & outside):
+                    sh, nm = _shape(c, tg)
+                    hit = ref_comp_shapes.get(sh)
+                    if hit is not None and len(hit) == 1:
+                        r_stmt, r_names = hit[0]
+                        a_, b_ = [_name_of(x) for x in nm], [_name_of(x) for x in r_names]
+                        if len(a_) == len(b_) and len(set(zip(a_, b_))) == len(set(a_)) == len(set(b_)):
+                            new_st = _copy(r_stmt)
+                            for x in ast.walk(new_st):
+                                if hasattr(x, "lineno") or isinstance(x, (ast.expr, ast.stmt)):
+                                    x.lineno = x.end_lineno = lst[i].lineno
+                                    x.col_offset = x.end_col_offset = 0
+                            lst[i:i + 2] = [new_st]
+                            n_[0] += 1
+                            continue
+            i += 1
+        for st in lst:
+            if isinstance(st, FUNC + (ast.ClassDef,)):
+                continue
+            for fld in ("body", "orelse", "finalbody"):
+                v = getattr(st, fld, None)
+                if isinstance(v, list) and v and isinstance(v[0], ast.stmt):
+                    comp_block(st, fld)
+            if isinstance(st, ast.Try):
+                for h in st.handlers:
+                    comp_block(h, "body")
+    comp_block(f_new, "body")
     if n_[0]:
         ast.fix_missing_locations(f_new)
     return n_[0]
@@ -897,16 +1154,29 @@ def normalise_module(tree, rel, root=None):
             skip0 = ps[:1] if ps and ps[0] in ("self", "cls") else []
             free_new = frozenset(p_ for p_ in ps if p_ not in skip0 and p_ not in kws)
             free_ref = frozenset(a.arg for a in fr.args.posonlyargs + fr.args.args if a.arg not in ("self", "cls"))
-        mapping, how, locals_, others = correspondence(f, fr, free_new, free_ref)
-        m = _valid(mapping, locals_, others)
-        if m:
-            apply(f, m)
-            rep["renamed_functions"] += 1
-            rep["names"] += len(m)
-            rep["same_shape" if how == "same-shape" else "aligned"] += 1
-            rep["details"][q] = m
-        k = respell(f, fr)
-        if k:
-            rep["respelled"] = rep.get("respelled", 0) + k
-            rep.setdefault("respelled_in", []).append(q)
+        # names and spellings help each other (a respelled condition aligns, an aligned statement gives its names): a few rounds
+        renamed = False
+        for _round in range(3):
+            mapping, how, locals_, others = correspondence(f, fr, free_new, free_ref)
+            m = _valid(mapping, locals_, others)
+            if m:
+                apply(f, m)
+                if not renamed:
+                    rep["renamed_functions"] += 1
+                    rep["same_shape" if how == "same-shape" else "aligned"] += 1
+                renamed = True
+                rep["names"] += len(m)
+                rep["details"].setdefault(q, {}).update(m)
+            k = 0
+            for _inner in range(8):         # one nesting level of if/else structure is settled per pass
+                k1 = respell(f, fr) + respell_aligned(f, fr)
+                k += k1
+                if not k1:
+                    break
+            if k:
+                rep["respelled"] = rep.get("respelled", 0) + k
+                if q not in rep.setdefault("respelled_in", []):
+                    rep["respelled_in"].append(q)
+            if not m and not k:
+                break
     return rep
